@@ -593,6 +593,8 @@ func govcSameBase[T any](a, b []T) bool                   { return true }
 func govcOffset[T any](a []T) int                         { return 0 }
 func govcGassign[T any](id int, target, value T, cond bool) int { return 0 }
 func govcF32bits(u uint32) float32                        { return 0 }
+func govcBinsize(x interface{}) int                       { return 0 }
+func govcTagsize(tag int) int                             { return 0 }
 func govcF64bits(u uint64) float64                        { return 0 }
 
 const govcStar = -1
@@ -787,7 +789,7 @@ func genOverlay(cf *ContractFile) (string, error) {
 	return b.String(), nil
 }
 
-var reBuiltin = regexp.MustCompile(`\b(old|ite|fresh|same|isNaN|ifaceOf|samebase|offset|isEOF|isUEOF|iserr|isLE|isBE|ifaceobj|allfields|rvmt|rvfld|rvobj|rvcls|rvttag|rvstate|rvwid|rvecls|rvewid|rvvalid|rvismsg|rvindirect|rvmsgarg|rvstr|f32bits|f64bits|rvtimeat|rvcell|rvtime|rvint|rvflt|rvfieldof|tsec|tns|tzoff|tzid|rvNumField|rvClass|rvWidth|rvEClass|rvEWidth|rvTypeTag)\(`)
+var reBuiltin = regexp.MustCompile(`\b(old|ite|fresh|same|isNaN|ifaceOf|samebase|offset|isEOF|isUEOF|iserr|isLE|isBE|ifaceobj|allfields|rvmt|rvfld|rvobj|rvcls|rvttag|rvstate|rvwid|rvecls|rvewid|rvvalid|rvismsg|binsize|tagsize|rvindirect|rvmsgarg|rvstr|f32bits|f64bits|rvtimeat|rvcell|rvtime|rvint|rvflt|rvfieldof|tsec|tns|tzoff|tzid|rvNumField|rvClass|rvWidth|rvEClass|rvEWidth|rvTypeTag)\(`)
 var reTypeIs = regexp.MustCompile(`\btypeis\[`)
 var reMsgOf = regexp.MustCompile(`\bmsgOf\[`)
 var reTypeTag = regexp.MustCompile(`\btypetag\[`)
@@ -872,6 +874,10 @@ func rewriteBuiltins(s string) string {
 			return "govcRvstr("
 		case "rvindirect(":
 			return "govcRvindirect("
+		case "binsize(":
+			return "govcBinsize("
+		case "tagsize(":
+			return "govcTagsize("
 		case "rvmsgarg(":
 			return "govcRvmsgarg("
 		case "f32bits(":
